@@ -315,6 +315,7 @@ Inductive op :=
   | OpSetMaxHeight (n : Z)
   | OpDropNode (n : hnode)                     (* drop the program's handle (Incr clone) *)
   | OpDropVar (x : vid)                        (* drop a public::Var handle *)
+  | OpDropExports                              (* drop every node handle that bind closures handed out *)
   | OpCrashAt (k : nat).                       (* arm the panic injection: k-th user invocation from now *)
 
 Inductive out :=
@@ -484,6 +485,7 @@ Definition step (fuel : nat) (st : istate) (o : op) : M (istate * out) :=
       (if bool_decide (v_handles v = 1%nat) then modify (fun s => s <| dead_vars := dead_vars s ++ [x] |>)
        else ret tt) ;;;
       ret (st, OutUnit)
+  | OpDropExports => modify (fun s => s <| exports := [] |>) ;;; ret (st, OutUnit)
   | OpCrashAt k =>
       modify (fun s => s <| crash_at := Some (inv_count s + k)%nat |>) ;;; ret (st, OutUnit)
   end.
